@@ -161,7 +161,7 @@ def plan_spline_build(ctx, props, env, nrep_quick, nrep_thorough, tdom="W", extr
                   props_judged=props)
 
 
-def repo_test_traces(ctx, tests, first=40, every=2000):
+def repo_test_traces(ctx, tests, first=40, every=8000):
     """code -> spec on executions the verification did not write: the repository's own test programs, unmodified, built with the
     guarded build-observer hook, record every spline build they perform (rate limited); TLC validates the recordings"""
     from concurrent.futures import ThreadPoolExecutor
@@ -183,7 +183,7 @@ def repo_test_traces(ctx, tests, first=40, every=2000):
         if not out or not os.path.exists(out) or os.path.getsize(out) == 0:
             ctx.infra.append("the repository test %s built with hooks produced no trace" % t)
             continue
-        r = validate_trace(ctx, "TraceSpline", out, out + ".out.json", env)
+        r = validate_trace(ctx, "TraceSpline", out, out + ".out.json", env, 1700, "6g")
         if "infra" in r:
             ctx.infra.append(r["infra"])
             continue
